@@ -82,13 +82,7 @@ func runC36(c *Ctx) {
 		}
 		noCred := func(i *ssa.If) (bool, bool) {
 			// User == Pass && len(User) == 0
-			x, neg := ssau.StripNot(i.Cond)
-			if b, ok := x.(*ssa.BinOp); ok && b.Op == token.EQL {
-				if isLenOf(fieldIs("RpcConfiguration", "User"))(b.X) && isConstInt(0)(b.Y) {
-					return true, !neg
-				}
-			}
-			return false, false
+			return condCmp(isLenOf(fieldIs("RpcConfiguration", "User")), isConstInt(0), token.EQL, true)(i)
 		}
 		c.GuardSuccess("G2-access", "checkAuth|true only without credentials or on a constant-time match", au, "len(User)==0 / ConstantTimeCompare == 1", func(i *ssa.If) (bool, bool) {
 			if m, arm := noCred(i); m {
@@ -97,13 +91,13 @@ func runC36(c *Ctx) {
 			return condCmp(func(v ssa.Value) bool { return ssau.IsCallTo(ssau.Unwrap(v), ctc) }, isConstInt(1), token.EQL, true)(i)
 		}, G1Opt{BoolSuccess: true})
 		// no-credentials arm also requires User == Pass
-		nEq := 0
-		for _, i := range ssau.Ifs(au) {
-			if b, ok := i.Cond.(*ssa.BinOp); ok && b.Op == token.EQL && fieldIs("RpcConfiguration", "User")(b.X) && fieldIs("RpcConfiguration", "Pass")(b.Y) {
-				nEq++
+		// (success is reached only through User == Pass or a constant-time match; the test may live in a predicate helper)
+		c.GuardSuccess("G2-access", "checkAuth|no-credential arm requires User == Pass", au, "User == Pass / ConstantTimeCompare == 1", func(i *ssa.If) (bool, bool) {
+			if m, arm := condCmp(fieldIs("RpcConfiguration", "User"), fieldIs("RpcConfiguration", "Pass"), token.EQL, true)(i); m {
+				return m, arm
 			}
-		}
-		c.R.Check("G2-access", "checkAuth|no-credential arm requires User == Pass", nEq == 1, c.pos(au.Pos()), "the unauthenticated arm is taken only when both credentials are empty")
+			return condCmp(func(v ssa.Value) bool { return ssau.IsCallTo(ssau.Unwrap(v), ctc) }, isConstInt(1), token.EQL, true)(i)
+		}, G1Opt{BoolSuccess: true})
 		for _, call := range ssau.CallsIn(au, ctc) {
 			a := call.Common().Args
 			sides := []ssa.Value{a[0], a[1]}
